@@ -301,8 +301,11 @@ func (s *State) PC() []smt.T { return s.pc }
 // ---------------------------------------------------------------- obligations
 
 func (e *Engine) oblige(st *State, kind, detail string, pos token.Pos, goal smt.T) {
-	if goal.S == "true" {
-		// still counted: trivially discharged obligations are not emitted
+	if goal.S == "true" && kind != "post" {
+		// trivially discharged safety / frame obligations are not emitted; a
+		// postcondition that the term simplifier already decides (return a against
+		// "r == a || r == b") is emitted all the same, so that every contract clause
+		// is seen to be exercised
 		return
 	}
 	fn := ""
